@@ -95,7 +95,8 @@ def _load_bank(prop):
             meta = json.load(open(mp))
             if twin or meta.get('property') == prop:
                 out.append({'id': name, 'kind': 'patch', 'patch': os.path.join(d, name, 'patch.diff'), 'twin': twin,
-                            'not_analysable': bool(meta.get('not_analysable'))})
+                            'not_analysable': bool(meta.get('not_analysable')),
+                            'known_false_alarm': bool(meta.get('known_false_alarm'))})
     return out
 
 
@@ -143,6 +144,9 @@ def run_bank(prop, root):
                     # a refactoring shape the recognisers do not understand: reported as "cannot analyse" (exit 2),
                     # never as a violation - listed, not a failure of the bank
                     res.setdefault('twins_unrecognised', []).append('%s: %s' % (m['id'], info))
+                elif m.get('known_false_alarm'):
+                    # a recorded limit of the front end (meta.json says why): listed, not hidden
+                    res.setdefault('twins_known_false_alarm', []).append('%s: %s' % (m['id'], info))
                 else:
                     problems.append('behaviour-preserving twin %s: %s %s' % (m['id'], status, info))
             else:
